@@ -197,12 +197,15 @@ def recv(n: int, t0: int, t1: int, t2: int, o1: int, x1: bool, j: int, o2: int) 
     return ok
 
 
-def recv_trunc(b1: str, cut: int) -> bool:
-    """R2: a stream that ends anywhere inside a frame terminates (EOFError / protocol error), never loops
-    pre: len(b1) <= 2 and 0 <= cut <= 70
+def recv_trunc(t0: int, n: int, cut: int) -> bool:
+    """R2: a stream that ends anywhere inside a frame terminates (EOFError / protocol error), never loops; body = n
+    copies of a token (1..4-byte characters, LF, brace, blank) - the header parser now splits header lines at ':' and
+    folds case, which on a FREE symbolic body made the path space explode, so the body is picked by forked indices
+    pre: 0 <= t0 < len(TOKS) and 0 <= n <= 2 and 0 <= cut <= 70
     post: _
     """
     tick("recv_trunc")
+    b1 = TOKS[conc(t0, 0, len(TOKS) - 1)] * conc(n, 0, 2)
     full = _mkframe(b1, 1, False)
     cut = conc(cut, 0, 70)
     if cut >= len(full) - len(b1):
